@@ -1071,6 +1071,12 @@ let rec map f = function
 | [] -> []
 | a :: t -> (f a) :: (map f t)
 
+(** val flat_map : ('a1 -> 'a2 list) -> 'a1 list -> 'a2 list **)
+
+let rec flat_map f = function
+| [] -> []
+| x :: t -> app (f x) (flat_map f t)
+
 (** val fold_left : ('a1 -> 'a2 -> 'a1) -> 'a2 list -> 'a1 -> 'a1 **)
 
 let rec fold_left f l a0 =
@@ -1095,6 +1101,12 @@ let rec existsb f = function
 let rec forallb f = function
 | [] -> true
 | a :: l0 -> (&&) (f a) (forallb f l0)
+
+(** val filter : ('a1 -> bool) -> 'a1 list -> 'a1 list **)
+
+let rec filter f = function
+| [] -> []
+| x :: l0 -> if f x then x :: (filter f l0) else filter f l0
 
 (** val firstn : nat -> 'a1 list -> 'a1 list **)
 
@@ -2220,12 +2232,12 @@ type ('a, 'b) singleton = 'a -> 'b
 let singleton0 singleton1 =
   singleton1
 
-type ('a, 'b) filter = __ -> ('a -> decision) -> 'b -> 'b
+type ('a, 'b) filter0 = __ -> ('a -> decision) -> 'b -> 'b
 
-(** val filter0 : ('a1, 'a2) filter -> ('a1 -> decision) -> 'a2 -> 'a2 **)
+(** val filter1 : ('a1, 'a2) filter0 -> ('a1 -> decision) -> 'a2 -> 'a2 **)
 
-let filter0 filter1 h x =
-  filter1 __ h x
+let filter1 filter2 h x =
+  filter2 __ h x
 
 type 'm mRet = __ -> __ -> 'm
 
@@ -2454,8 +2466,8 @@ let rec list_filter x = function
 | [] -> []
 | x0 :: l0 ->
   if decide (x x0)
-  then x0 :: (filter0 (fun _ -> list_filter) x l0)
-  else filter0 (fun _ -> list_filter) x l0
+  then x0 :: (filter1 (fun _ -> list_filter) x l0)
+  else filter1 (fun _ -> list_filter) x l0
 
 (** val replicate : nat -> 'a1 -> 'a1 list **)
 
@@ -3919,13 +3931,13 @@ let write_bytes m off d =
 let trunc_data m sz =
   let last = N.div sz bS0 in
   if N.eqb (N.modulo sz bS0) N0
-  then filter0 (fun _ ->
+  then filter1 (fun _ ->
          map_filter (gmap_to_list n_eq_dec n_countable)
            (map_insert (gmap_partial_alter n_eq_dec n_countable))
            (gmap_empty n_eq_dec n_countable)) (fun x ->
          is_true_dec (N.ltb (fst x) last)) m
   else let m1 =
-         filter0 (fun _ ->
+         filter1 (fun _ ->
            map_filter (gmap_to_list n_eq_dec n_countable)
              (map_insert (gmap_partial_alter n_eq_dec n_countable))
              (gmap_empty n_eq_dec n_countable)) (fun x ->
@@ -4392,10 +4404,10 @@ let do_write p s h off cnt st d hi =
                                     (N.max o.o_size (N.add off n0))
                                     (write_bytes o.o_data off (takeN n0 d))
                            in
-                           let committed =
+                           let committed0 =
                              if s.unstable_opt then st else FileSync
                            in
-                           ((set_obj s i o'), (RWritten (n0, committed,
+                           ((set_obj s i o'), (RWritten (n0, committed0,
                            (attrs_of i o')))))
   | None -> (s, (RStatus STALE))
 
@@ -4809,7 +4821,7 @@ let visit name_max maxfilesize l d inum0 parent st =
               omap (Obj.magic (fun _ _ -> list_omap)) (Obj.magic id) slots
             in
             let real =
-              filter0 (Obj.magic (fun _ -> list_filter)) (fun x ->
+              filter1 (Obj.magic (fun _ -> list_filter)) (fun x ->
                 is_true_dec
                   ((&&)
                     (negb
@@ -5590,7 +5602,92 @@ let recover_log d =
 (** val fs_part : disk -> (n * bytes) list **)
 
 let fs_part d =
-  filter0 (fun _ -> list_filter) (fun x ->
+  filter1 (fun _ -> list_filter) (fun x ->
     is_true_dec
       (N.leb (Npos (XI (XO (XO (XO (XO (XO (XO (XO (XO XH)))))))))) (fst x)))
     (map_to_list (gmap_to_list n_eq_dec n_countable) d)
+
+type tev =
+| TAcq of n
+| TRel of n
+| TCommit of bool
+| TCommitted of bool
+| TAbort
+| TFlush
+| TFlushed of bool
+| TFresh of n
+
+(** val remove1 : n -> n list -> n list **)
+
+let rec remove1 i = function
+| [] -> []
+| x :: r -> if N.eqb x i then r else x :: (remove1 i r)
+
+(** val asc_f : n list -> n list -> tev list -> bool **)
+
+let rec asc_f fresh0 held = function
+| [] -> true
+| t :: r ->
+  (match t with
+   | TAcq i ->
+     (&&)
+       (if existsb (N.eqb i) fresh0
+        then negb (existsb (N.eqb i) held)
+        else forallb (fun h -> N.ltb h i)
+               (filter (fun h -> negb (existsb (N.eqb h) fresh0)) held))
+       (asc_f fresh0 (i :: held) r)
+   | TRel i -> asc_f fresh0 (remove1 i held) r
+   | TFresh i -> asc_f (i :: fresh0) held r
+   | _ -> asc_f fresh0 held r)
+
+(** val asc_b : n list -> tev list -> bool **)
+
+let rec asc_b held = function
+| [] -> true
+| t :: r ->
+  (match t with
+   | TAcq i -> (&&) (forallb (fun h -> N.ltb h i) held) (asc_b (i :: held) r)
+   | TRel i -> asc_b (remove1 i held) r
+   | _ -> asc_b held r)
+
+(** val commit_phase_b : n -> tev list -> bool **)
+
+let rec commit_phase_b st = function
+| [] -> true
+| t :: r ->
+  (match t with
+   | TAcq _ -> (&&) (N.eqb st N0) (commit_phase_b st r)
+   | TRel _ -> (&&) (negb (N.eqb st (Npos XH))) (commit_phase_b st r)
+   | TCommit _ -> (&&) (N.eqb st N0) (commit_phase_b (Npos XH) r)
+   | TAbort -> (&&) (N.eqb st N0) (commit_phase_b st r)
+   | TFlush -> (&&) (N.eqb st N0) (commit_phase_b (Npos XH) r)
+   | TFresh _ -> commit_phase_b st r
+   | _ -> (&&) (N.eqb st (Npos XH)) (commit_phase_b (Npos (XO XH)) r))
+
+(** val balanced_b : n list -> tev list -> bool **)
+
+let rec balanced_b held = function
+| [] -> (match held with
+         | [] -> true
+         | _ :: _ -> false)
+| t :: r ->
+  (match t with
+   | TAcq i -> balanced_b (i :: held) r
+   | TRel i -> (&&) (existsb (N.eqb i) held) (balanced_b (remove1 i held) r)
+   | _ -> balanced_b held r)
+
+(** val waits : tev list -> bool list **)
+
+let waits evs =
+  flat_map (fun e -> match e with
+                     | TCommit w1 -> w1 :: []
+                     | _ -> []) evs
+
+(** val committed : tev list -> bool **)
+
+let committed evs =
+  existsb (fun e ->
+    match e with
+    | TCommitted ok -> ok
+    | TFlushed ok -> ok
+    | _ -> false) evs
